@@ -4,9 +4,10 @@ from ..graph import Graph
 from ..expr import access_path, path_str, reaching_defs, norm_cond, origins, leaves, defs_in_node
 from ..linear import linear, relation, fmt, rel_str
 from ..symb import feasible_reach, feasible_armed_reach
-from ..charclass import byteset, describe, CTYPE
-from .common import strip_casts, short, comparison
+from ..charclass import byteset, describe, CTYPE, bytevalue
+from .common import strip_casts, short, comparison, once_init
 from . import c14
+from .c07 import _select_kind
 
 UNITS = []
 DRIVERS = ['propagators.cc']
@@ -59,6 +60,11 @@ def rule_r3(ck, prog, rule='C15.R3'):
                 val = [vx for (v, s, vx) in defs_in_node(f, dp.n) if v == a['id']][0]
                 if val is not None and f.nodes[val].get('v') == 180:
                     continue
+                if val is not None:
+                    # std::min(n, 180) / n > 180 ? 180 : n
+                    kind, ops = _select_kind(f, val)
+                    if kind == 'min' and any(strip_casts(f, o).get('v') == 180 for o in ops):
+                        continue
                 # an uncapped definition may only reach along the "cnt <= 180" edge
                 def le180(x, y, lab, _vid=a['id']):
                     r = rel_of(x, lab)
@@ -148,8 +154,19 @@ def _loop_subject(f, loop):
     if loop['k'] == 'forrange':
         vid = loop['var']
         return lambda i: f.nodes[i]['k'] == 'ref' and f.nodes[i].get('id') == vid
-    return lambda i: f.nodes[i]['k'] == 'call' and f.nodes[i].get('op') == '[]' and f.nodes[i].get('args') and \
+    base = lambda i: f.nodes[i]['k'] == 'call' and f.nodes[i].get('op') == '[]' and f.nodes[i].get('args') and \
         strip_casts(f, f.nodes[i]['args'][0])['k'] == 'ref' and f.nodes[f.nodes[i]['obj']].get('sk') == 'param'
+
+    def subj(i):
+        if base(i):
+            return True
+        n = f.nodes[i]
+        if n['k'] == 'ref' and n.get('sk') == 'local':
+            # `const char c = str[i];` at the top of the body
+            init = once_init(f, i)
+            return 'i' in init and init['i'] != i and base(init['i'])
+        return False
+    return subj
 
 
 def _if_chain(f, loop):
@@ -216,6 +233,22 @@ def rule_r4(ck, prog, rule='C15.R4'):
         ck.verdict(ok, rule, lf, 'hex-digit-class', rets[0], 'escape digits are exactly the hex digits' if ok else 'the escape-digit predicate accepts %s, hex digits are %s' % (describe(bs), describe(CTYPE['isxdigit'])))
     else:
         ck.inconclusive(rule, dec, 'hex-digit-class', None, 'hex predicate lambda not found')
+    # the value of an escape digit: for every hex digit (both cases) the conversion yields its numeric value - exhaustive table
+    tohex = [x for x in prog.funcs.values() if x.d.get('lambda') and x.d.get('parent') == dec.key and x.d.get('ret') != 'bool' and len(x.params) == 1]
+    if tohex:
+        lf = tohex[0]
+        rets = [n for n in lf.nodes if n['k'] == 'return' and n.get('e') is not None and n['e'] >= 0]
+        wrong = []
+        if len(rets) == 1:
+            for b in sorted(CTYPE['isxdigit']):
+                v = bytevalue(lf, rets[0]['e'], lambda i: lf.nodes[i]['k'] == 'ref' and lf.nodes[i].get('id') == lf.params[0]['id'], b)
+                if v is None or (v & 0xff) != int(chr(b), 16):
+                    wrong.append((chr(b), v))
+        ok = len(rets) == 1 and not wrong
+        ck.verdict(ok, rule, lf, 'hex-digit-value', rets[0] if rets else None, 'every hex digit (0-9, a-f, A-F) converts to its value' if ok else
+                   'the escape-digit conversion is wrong for %s: %%xx escapes written with those digits decode to a different byte' % ', '.join('%r -> %s' % w for w in wrong[:6]))
+    else:
+        ck.inconclusive(rule, dec, 'hex-digit-value', None, 'hex conversion lambda not found')
     # escape guard
     g = Graph(prog, dec, inline=None, sync_lambdas=False)
     rd = reaching_defs(g)
@@ -355,17 +388,24 @@ def rule_r6(ck, prog, rule='C15.R6', cls='context::propagation::CompositePropaga
                'CompositePropagator::Extract does not thread the context: %s (what the propagators in between extracted is lost)' % bad[1])
     rets = g.returns()
     accs = {acc_of(e)[0] for e in ex}
-    ok = bool(rets) and all(any(f.nodes[i]['k'] == 'ref' and f.nodes[i].get('id') in accs for i in f.subtree(r.n['e'])) for r in rets)
+    def ret_ok(r):
+        if any(f.nodes[i]['k'] == 'ref' and f.nodes[i].get('id') in accs for i in f.subtree(r.n['e'])):
+            return True
+        # the caller's context itself, on a path on which no propagator has run (empty list)
+        after_call = any(r.id in g.reachable_from([q for (q, _l) in e.succ]) for e in ex)
+        return strip_casts(f, r.n['e']).get('id') == ctxp['id'] and not after_call
+    ok = bool(rets) and all(ret_ok(r) for r in rets) and any(any(f.nodes[i]['k'] == 'ref' and f.nodes[i].get('id') in accs for i in f.subtree(r.n['e'])) for r in rets)
     ck.verdict(ok, rule, f, 'extract-returns-accumulator', rets[0].n if rets else None, 'the accumulated context is returned' if ok else 'Extract does not return the accumulated context')
 
 
 def run(ck, prog):
     ck.doc('C15.R1', 'no member of Baggage modifies the object it is called on', 6)
-    ck.doc('C15.R2', 'copy callbacks of Set/Delete exclude the given key', 2)
+    ck.doc('C15.R2', 'copy callbacks of Set/Delete exclude the given key; Delete allocates room for every entry it may copy', 3)
     ck.doc('C15.R3', 'size limits 8192/180/4096 (on the whole member) and the validity conjunction guard the insertion; what is stored is what was validated', 9)
-    ck.doc('C15.R4', 'encoder/decoder alphabets agree (byte sets); escape guard; metadata bypass; stored text encoded unaltered', 6)
+    ck.doc('C15.R4', 'encoder/decoder alphabets agree (byte sets); escape digit values (exhaustive); escape guard; metadata bypass; stored text encoded unaltered', 7)
     ck.doc('C15.R5', 'BaggagePropagator::Extract installs only a non-empty parsed baggage, into the context it was given', 3)
     ck.doc('C14.R5', '(shared rule, see C14) the tokenizer hands out the member parts untransformed', 1)
+    ck.doc('C14.R6', '(shared rule, see C14) Trim removes exactly the whitespace class on both edges; the right index cannot step below zero', 3)
     ck.doc('C15.R6', 'CompositePropagator: Inject calls all; Extract threads the context on every feasible path', 3)
     with ck.canary('C15.R6'):
         rule_r6(ck, prog, cls='canary::c15::BadComposite')
@@ -377,4 +417,6 @@ def run(ck, prog):
     rule_r6(ck, prog)
     c14.rule_r2_validated_is_stored(ck, prog, cls='baggage::Baggage', rule='C15.R3', names=('FromHeader',))
     c14.rule_r5_tokenizer(ck, prog, rule='C14.R5')
+    c14.rule_r6(ck, prog, rule='C14.R6')
+    c14.rule_r3_alloc(ck, prog, cls='baggage::Baggage', rule='C15.R2')
     return {}
